@@ -175,6 +175,14 @@ impl Format {
 
         let s = s_in.trim();
 
+        if !s.is_ascii() {
+            // The character indexes used below are only valid byte indexes for ASCII strings.
+            return Err(HifitimeError::Parse {
+                source: ParsingError::UnknownFormat,
+                details: "when parsing from format string, only ASCII input is supported",
+            });
+        }
+
         for (idx, char) in s.chars().enumerate() {
             // We should parse if:
             // 1. we're at the end of the string
@@ -231,18 +239,26 @@ impl Format {
                         break;
                     }
                     cur_item_idx += 1;
-                    match self.items[cur_item_idx] {
-                        Some(item) => {
-                            cur_item = item;
+                    // NOTE: `get` because a format may use all of the available items.
+                    match self.items.get(cur_item_idx) {
+                        Some(Some(item)) => {
+                            cur_item = *item;
                             cur_token = cur_item.token;
                         }
-                        None => break,
+                        _ => break,
                     }
 
                     idx
                 } else {
                     idx + 1
                 };
+
+                if prev_idx > end_idx {
+                    return Err(HifitimeError::Parse {
+                        source: ParsingError::UnknownFormat,
+                        details: "when parsing from format string",
+                    });
+                }
 
                 let sub_str = &s[prev_idx..end_idx];
 
@@ -279,7 +295,10 @@ impl Format {
                         }
                     }
                     Token::WeekdayDecimal => {
-                        todo!()
+                        return Err(HifitimeError::Parse {
+                            source: ParsingError::UnknownFormat,
+                            details: "parsing the weekday in decimal form is not supported",
+                        });
                     }
                     Token::MonthName | Token::MonthNameShort => {
                         match MonthName::from_str(sub_str) {
@@ -303,7 +322,13 @@ impl Format {
                                     Some(pos) => {
                                         // If these are the subseconds, we must convert them to nanoseconds
                                         if prev_token == Token::Subsecond {
-                                            if end_idx - prev_idx != 9 {
+                                            if end_idx - prev_idx > 9 {
+                                                // More digits than the nanosecond precision
+                                                return Err(HifitimeError::Parse {
+                                                    source: ParsingError::ValueError,
+                                                    details: "more than nine subsecond digits",
+                                                });
+                                            } else if end_idx - prev_idx != 9 {
                                                 decomposed[pos] = val
                                                     * 10_i32.pow((9 - (end_idx - prev_idx)) as u32);
                                             } else {
@@ -359,7 +384,9 @@ impl Format {
                     + (decomposed[4] as i64) * Unit::Minute
                     + (decomposed[5] as i64) * Unit::Second
                     + (decomposed[6] as i64) * Unit::Nanosecond;
-                Epoch::from_day_of_year(decomposed[0], days, ts) + elapsed
+                // NOTE: This is `from_day_of_year` without its panic on an invalid year.
+                let start_of_year = Epoch::maybe_from_gregorian(decomposed[0], 1, 1, 0, 0, 0, 0, ts)?;
+                start_of_year + (days - 1.0) * Unit::Day + elapsed
             }
             None => Epoch::maybe_from_gregorian(
                 decomposed[0],
